@@ -23,8 +23,7 @@ def run_pairs(pid, tier, seed, ops, nconf, stride, only_nonuniform=False, l1_rec
     out = os.path.join(vlib.BUILD, "work", pid)
     os.makedirs(out, exist_ok=True)
     summ = json.loads(vlib.run_harness(["pairs", spath, pairs, out, seed, ops, nconf, stride], timeout=3000))
-    if summ.get("event_cap_hit"):
-        raise vlib.Inconclusive("more distinct mismatches than the event cap; lower the sampling rate")
+    capped = bool(summ.get("event_cap_hit"))   # more deviating calls than TLC is asked to explain: the first ones (in replay order) are explained
     path = os.path.join(out, "pairs.events.ndjson")
     events = [json.loads(l) for l in open(path)]
     total_events = len(events)
@@ -74,7 +73,7 @@ def run_pairs(pid, tier, seed, ops, nconf, stride, only_nonuniform=False, l1_rec
                      "strata": {m["name"]: m["lines"] for m in metas[:-1]}, "pair_rows": metas[-1]["lines"]},
         "replayed_pairs": summ["pairs"], "configurations_per_pair": nconf, "pair_sampling_stride": stride,
         "mismatching_calls": summ["mismatching_calls"], "distinct_mismatches": total_events,
-        "explained_by_L2": expl, "known_finding_hits": v.known_hits,
+        "explained_by_L2": expl, "known_finding_hits": v.known_hits, "explain_cap_hit": capped,
     }
     return v, cov, shapes
 
